@@ -197,12 +197,9 @@ func (db *GoBadgerDB) Iterator(start, end []byte, reverse bool) Iterator {
 	if bytes.Equal(end, types.EmptyValue) {
 		end = nil
 	}
-	if reverse {
-		it.Seek(end)
-	} else {
-		it.Seek(start)
-	}
-	return &goBadgerDBIt{it, itBase{start, end, reverse}, txn, nil}
+	bit := &goBadgerDBIt{it, itBase{start, end, reverse}, txn, nil}
+	bit.Rewind()
+	return bit
 }
 
 type goBadgerDBIt struct {
@@ -214,6 +211,9 @@ type goBadgerDBIt struct {
 
 // Next next
 func (it *goBadgerDBIt) Next() bool {
+	if !it.Iterator.Valid() {
+		return false
+	}
 	it.Iterator.Next()
 	return it.Valid()
 }
@@ -221,15 +221,33 @@ func (it *goBadgerDBIt) Next() bool {
 // Rewind ...
 func (it *goBadgerDBIt) Rewind() bool {
 	if it.reverse {
-		it.Seek(it.end)
+		it.seekLast()
 	} else {
-		it.Seek(it.start)
+		it.Iterator.Seek(it.start)
 	}
 	return it.Valid()
 }
 
+// seekLast positions a reverse iterator on the greatest key below the exclusive end bound
+func (it *goBadgerDBIt) seekLast() {
+	it.Iterator.Seek(it.end)
+	if it.end != nil && it.Iterator.Valid() && bytes.Equal(it.Item().Key(), it.end) {
+		it.Iterator.Next()
+	}
+}
+
 // Seek 查找
+// a badger iterator is not range restricted, so the target is clamped into the [start, end)
+// window here, as the range restricted iterators of the other backends do
 func (it *goBadgerDBIt) Seek(key []byte) bool {
+	if it.reverse {
+		if it.end != nil && bytes.Compare(key, it.end) >= 0 {
+			it.seekLast()
+			return it.Valid()
+		}
+	} else if it.start != nil && bytes.Compare(key, it.start) < 0 {
+		key = it.start
+	}
 	it.Iterator.Seek(key)
 	return it.Valid()
 }
@@ -242,7 +260,12 @@ func (it *goBadgerDBIt) Close() {
 
 // Valid 是否合法
 func (it *goBadgerDBIt) Valid() bool {
-	return it.Iterator.Valid() && it.checkKey(it.Key())
+	if !it.Iterator.Valid() {
+		return false
+	}
+	key := it.Key()
+	// the end bound is exclusive, as in the other backends
+	return it.checkKey(key) && (it.end == nil || bytes.Compare(key, it.end) < 0)
 }
 
 func (it *goBadgerDBIt) Key() []byte {
